@@ -9,15 +9,17 @@
 import ast
 import re
 
-from sa.interp import Interp, Scenario, Sym, Const, Bytes, render, render_items, merge_consts
+from sa.interp import Sym, Const, render, sl
 from sa.loader import AnalysisError, dotted
 from sa import taint
 from sa import families
+from sa.taint import run_roles, split_items, split_args, int_equiv
 
-noinline = lambda f: False  # noqa: E731
-
-ENC_CALLS = ('encrypt_sk', 'encrypt', '_encrypt', 'aes_key_wrap', 'cipher', 'Cipher', 'derive_key', 'sum', 'bytearray', 'bytes',
-             'int_to_bytes', 'update', 'len')
+# callees whose RESULT no longer exposes the key (encryption / key wrap), and callees the key may merely be handed to
+SANITIZERS = ('encrypt_sk', 'encrypt', '_encrypt', 'aes_key_wrap', 'cipher', 'Cipher', 'encfn')
+CARRIERS = SANITIZERS + ('derive_key', 'sum', 'bytearray', 'bytes', 'int_to_bytes', 'update', 'len', 'padder', 'PKCS7', 'MPI', 'bytes_to_int',
+                         'divmod', 'reduce', 'to_bytes', 'partial')
+BITS = [64, 128, 192, 256]
 
 
 def run(rep, prog, tier):
@@ -42,14 +44,21 @@ def check_sources(rep, prog):
     ci = prog.cls('pgpy.constants', 'SymmetricKeyAlgorithm')
     for name, size in (('gen_iv', 'block_size'), ('gen_key', 'key_size')):
         f = ci.methods.get(name)
+        if f is None and isinstance(ci.attrs.get(name), ast.Name):
+            f = ci.methods.get(ci.attrs[name].id)           # `gen_key = gen_iv` in the class body: the aliased method IS gen_key
         if f is None:
             raise AnalysisError('SymmetricKeyAlgorithm.%s vanished' % name)
         rep.saw(fn=f)
-        outs = Interp(prog, Scenario(inline=noinline)).run(f)
+        outs = run_roles(prog, f, ('self',))
         for s in outs:
-            r = render(s.ret)
+            r = taint.qualify_imports(render(s.ret), f.module)
+            if size == 'block_size':
+                r = r.replace('self.cipher.block_size', 'self.block_size')       # block_size IS the bound cipher's (checked with the cipher tables)
             exp = 'os.urandom((self.%s // 8))' % size
-            rep.check(r == exp, 'C13.1', 'SymmetricKeyAlgorithm.%s' % name, 'return %s' % r,
+            c = split_args(r)
+            ok = s.raised is None and c is not None and c[0] == 'os.urandom' and len(c[1]) == 1 and \
+                int_equiv(c[1][0], lambda B: B // 8, {'self.%s' % size: ('B', BITS)}) is True
+            rep.check(ok, 'C13.1', 'SymmetricKeyAlgorithm.%s' % name, 'return %s' % r,
                       '%s must return fresh OS randomness of %s // 8 octets' % (name, size), where=f.where, expected=exp, found=r)
         a = f.node.args
         rep.check(not a.defaults and not a.kw_defaults and not f.node.decorator_list, 'C13.1', 'SymmetricKeyAlgorithm.%s' % name,
@@ -71,8 +80,11 @@ def check_sources(rep, prog):
                     d = dotted(t) or ''
                     if d in ('os.urandom', 'urandom') or d.endswith('.gen_key') or d.endswith('.gen_iv') or d.endswith('.generate'):
                         rep.violation('C13.1', m.relpath, ast.unparse(n), 'an entropy source is rebound', where='%s:%d' % (m.relpath, n.lineno))
-            if isinstance(n, ast.Call) and (dotted(n.func) or '').endswith('urandom'):
-                n_urandom += 1
+            if (isinstance(n, ast.Attribute) and n.attr == 'urandom' and isinstance(n.ctx, ast.Load)) or \
+                    (isinstance(n, ast.Name) and n.id == 'urandom' and isinstance(n.ctx, ast.Load)) or \
+                    (isinstance(n, ast.Call) and dotted(n.func) == 'getattr' and len(n.args) >= 2 and isinstance(n.args[1], ast.Constant) and
+                     n.args[1].value == 'urandom'):
+                n_urandom += 1          # a use of the OS source (called directly, through a local alias or getattr)
     for fn in prog.all_functions():
         for d in fn.node.decorator_list:
             dn = dotted(d.func if isinstance(d, ast.Call) else d) or ''
@@ -80,56 +92,63 @@ def check_sources(rep, prog):
                 rep.violation('C13.1', fn.qualname, '@%s' % dn, 'a memoising decorator is used in the package (a cached operation would reuse randomness)',
                               where=fn.where)
         for dflt in list(fn.node.args.defaults) + [k for k in fn.node.args.kw_defaults if k is not None]:
-            t = ast.unparse(dflt)
-            if 'urandom' in t or 'gen_key' in t or 'gen_iv' in t or '.generate(' in t:
-                rep.violation('C13.1', fn.qualname, 'default %s' % t, 'an entropy call in a default argument is evaluated once per process',
-                              where=fn.where)
+            for c in entropy_call_nodes(dflt):
+                rep.violation('C13.1', fn.qualname, 'default %s' % ast.unparse(dflt), 'an entropy call in a default argument is evaluated once per process',
+                              where=fn.where, found=ast.unparse(c))
     rep.check(n_urandom >= 4, 'C13.1', 'package', 'os.urandom call sites: %d' % n_urandom,
               'expected the four os.urandom sites (gen_iv, gen_key, two salts)', found=n_urandom)
-    # class / module level storage of entropy results
+    # class / module level storage of entropy results (an entropy CALL evaluated when the module / class body runs)
     for m in prog.modules.values():
         for name, v in m.assigns.items():
-            t = ast.unparse(v)
-            if 'urandom' in t or '.generate(' in t or 'gen_key(' in t or 'gen_iv(' in t:
-                rep.violation('C13.1', m.relpath, '%s = %s' % (name, t), 'entropy drawn once at import time', where=m.relpath)
+            for c in entropy_call_nodes(v):
+                rep.violation('C13.1', m.relpath, '%s = %s' % (name, ast.unparse(v)), 'entropy drawn once at import time', where=m.relpath,
+                              found=ast.unparse(c))
         for c in m.classes.values():
             for name, v in c.attrs.items():
-                t = ast.unparse(v)
-                if 'urandom' in t or '.generate(' in t or 'gen_key(' in t or 'gen_iv(' in t:
-                    rep.violation('C13.1', c.name, '%s = %s' % (name, t), 'entropy drawn once per class', where=c.where)
+                for x in entropy_call_nodes(v):
+                    rep.violation('C13.1', c.name, '%s = %s' % (name, ast.unparse(v)), 'entropy drawn once per class', where=c.where,
+                                  found=ast.unparse(x))
+
+
+ENTROPY_FUNCS = ('urandom', 'gen_key', 'gen_iv', 'generate', 'generate_private_key', 'token_bytes', 'getrandbits')
+
+
+def entropy_call_nodes(node):
+    """Calls of an entropy source evaluated when `node` is evaluated (a lambda body is not: it draws on each call)."""
+    out = []
+    todo = [node]
+    while todo:
+        n = todo.pop()
+        if isinstance(n, ast.Lambda):
+            continue
+        if isinstance(n, ast.Call):
+            f = n.func
+            name = f.attr if isinstance(f, ast.Attribute) else (f.id if isinstance(f, ast.Name) else None)
+            if name in ENTROPY_FUNCS:
+                out.append(n)
+        todo.extend(ast.iter_child_nodes(n))
+    return out
 
 
 # ------------------------------------------------------------------------------------------------ session key
-def _calls(s, suffix):
-    return [c for c in s.calls if c[0].endswith(suffix)]
-
-
 def check_session_key(rep, prog):
-    for mod, cls, meth, esk_suffix, key_index in (('pgpy.pgp', 'PGPMessage', 'encrypt', 'skesk.encrypt_sk', 1),
-                                                  ('pgpy.pgp', 'PGPKey', 'encrypt', 'pkesk.encrypt_sk', 2)):
-        fi = prog.method(mod, cls, meth)
-        rep.saw(fn=fi)
-        construct = '%s.%s' % (cls, meth)
+    for cls in ('PGPMessage', 'PGPKey'):
+        construct = '%s.encrypt' % cls
         for given in (False, True):
-            args = {'sessionkey': Sym('sessionkey', nonnull=True) if given else Const(None)}
-            bind = {'self.is_encrypted': Const(False), 'message.is_encrypted': Const(False)}
-            sc = Scenario(args=args, bind=bind, inline=noinline)
-            outs = Interp(prog, sc).run(fi)
-            rep.analysed['paths'] += len(outs)
+            fi, paths = families.encrypt_operation_paths(prog, cls, given)
+            rep.saw(fn=fi)
+            rep.analysed['paths'] += len(paths)
             scen = 'sessionkey %s' % ('supplied' if given else 'None')
-            for s in outs:
-                if s.raised:
-                    continue
-                esk = [c for c in s.calls if c[0].split('.')[-1] == 'encrypt_sk']
-                data = [c for c in s.calls if c[0].endswith('skedata.encrypt')]
+            if not paths:
+                raise AnalysisError('%s: no returning path for a message that is not yet encrypted' % construct)
+            for d in paths:
+                esk, data = d['esk'], d['data']
                 rep.analysed['call_sites'] += len(esk) + len(data)
                 if len(esk) != 1 or len(data) != 1:
                     rep.violation('C13.2', construct, '%s: %d encrypt_sk / %d data encrypt calls' % (scen, len(esk), len(data)),
                                   'expected exactly one session-key packet and one container encryption', where=fi.where, scenario=scen)
                     continue
-                k_esk = esk[0][1][key_index] if len(esk[0][1]) > key_index else None
-                k_data = data[0][1][0] if data[0][1] else None
-                alg_data = data[0][1][1] if len(data[0][1]) > 1 else None
+                k_esk, k_data, alg_data = d['esk_key'], d['data_key'], d['data_alg']
                 rep.check(k_esk == k_data and k_esk is not None, 'C13.2', construct, '%s: ESK key %s vs data key %s' % (scen, k_esk, k_data),
                           'the key wrapped in the session-key packet must be the key the data is encrypted with', where=fi.where,
                           expected='same value', found='%s / %s' % (k_esk, k_data), scenario=scen)
@@ -138,86 +157,103 @@ def check_session_key(rep, prog):
                               'a caller-supplied session key must be the one used', where=fi.where, expected='sessionkey', found=k_data,
                               scenario=scen)
                 else:
-                    m = taint.entropy_call(k_data or '')
-                    ok = m is not None and (k_data or '').endswith('.gen_key()') and m.group('alg') == alg_data
+                    # one draw of the data cipher's key size: both packets get THE key, not two equal-looking ones
+                    ok = taint.fresh_draw(taint.qualify_imports(k_data, fi.module)) == ('key', alg_data) and taint.n_draws(d['state']) == 1
                     rep.check(ok, 'C13.2', construct, '%s: session key = %s' % (scen, k_data),
                               'when no session key is supplied it must be <cipher>.gen_key() of the cipher the data is encrypted with, '
                               'generated inside this call', where=fi.where, expected='%s.gen_key()' % alg_data, found=k_data, scenario=scen)
-                # cipher recorded in the ESK is the cipher used
                 if cls == 'PGPMessage':
-                    enc = [v for p, v, l, _ in s.stores if p == 'skesk.s2k.encalg']
-                    rep.check(enc == [alg_data], 'C13.2', construct, '%s: skesk cipher %s, data cipher %s' % (scen, enc, alg_data),
-                              'the passphrase packet must name the cipher the data is encrypted with', where=fi.where, scenario=scen,
-                              expected=alg_data, found=enc)
-                else:
-                    a = esk[0][1][1] if len(esk[0][1]) > 1 else None
-                    rep.check(a == alg_data, 'C13.2', construct, '%s: pkesk cipher %s, data cipher %s' % (scen, a, alg_data),
-                              'the session-key packet must name the cipher the data is encrypted with', where=fi.where, scenario=scen,
-                              expected=alg_data, found=a)
+                    spec = [v for p, v, l, _ in d['state'].stores if p == d['esk_obj'] + '.s2k.specifier']
+                    rep.check(len(spec) == 1 and spec[0] in ('3', '1', 'String2KeyType.Iterated', 'String2KeyType.Salted'), 'C13.2', construct,
+                              '%s: S2K specifier %s' % (scen, spec), 'the passphrase packet must use a salted S2K so that the fresh salt takes effect '
+                              '(RFC 4880 5.3: the IV is zero)', where=fi.where, scenario=scen, expected='3 (iterated and salted)', found=spec)
+                # cipher recorded in the ESK is the cipher used
+                rep.check(d['esk_alg'] == [alg_data], 'C13.2', construct, '%s: ESK cipher %s, data cipher %s' % (scen, d['esk_alg'], alg_data),
+                          'the session-key packet must name the cipher the data is encrypted with', where=fi.where, scenario=scen,
+                          expected=alg_data, found=d['esk_alg'])
+
+
+def _salt_then_derive(s):
+    return [('store' if e[0] == 'store' else 'derive') for e in s.events
+            if (e[0] == 'store' and e[1] == 'self.s2k.salt') or (e[0] == 'call' and e[1] == 'self.s2k.derive_key')]
 
 
 def check_skesk_salt(rep, prog):
     fi = prog.method('pgpy.packet.packets', 'SKESessionKeyV4', 'encrypt_sk')
     rep.saw(fn=fi)
-    outs = Interp(prog, Scenario(inline=noinline)).run(fi)
-    for s in outs:
-        salts = [(v, l) for p, v, l, _ in s.stores if p == 'self.s2k.salt']
-        ok = len(salts) == 1 and salts[0][0] == 'os.urandom(8)'
-        rep.check(ok, 'C13.2', 'SKESessionKeyV4.encrypt_sk', 'salt = %s' % [v for v, _ in salts],
+    for s in run_roles(prog, fi, ('self', 'passphrase', 'sk')):
+        if s.raised:
+            continue
+        salts = [v for p, v, l, _ in s.stores if p == 'self.s2k.salt']
+        rep.check(len(salts) == 1 and taint.is_urandom_of(salts[0], 8, fi.module) and taint.n_draws(s) == 1, 'C13.2', 'SKESessionKeyV4.encrypt_sk',
+                  'salt = %s' % salts,
                   'every passphrase encryption must draw a fresh 8-octet salt', where=fi.where, expected='self.s2k.salt = os.urandom(8)',
-                  found=[v for v, _ in salts])
+                  found=salts)
         # the salt is set before the key is derived from it
-        order = [e for e in s.events if (e[0] == 'store' and e[1] == 'self.s2k.salt') or (e[0] == 'call' and e[1].endswith('derive_key'))]
-        rep.check([e[0] for e in order] == ['store', 'call'], 'C13.2', 'SKESessionKeyV4.encrypt_sk', 'order %s' % [e[0] for e in order],
+        order = _salt_then_derive(s)
+        rep.check(order == ['store', 'derive'], 'C13.2', 'SKESessionKeyV4.encrypt_sk', 'order %s' % order,
                   'the fresh salt must be in place before the key-encryption key is derived', where=fi.where)
 
 
 def check_seipd_prefix(rep, prog):
     fi = prog.method('pgpy.packet.packets', 'IntegrityProtectedSKEDataV1', 'encrypt')
     rep.saw(fn=fi)
-    outs = Interp(prog, Scenario(inline=noinline)).run(fi)
-    for s in outs:
-        enc = [c for c in s.calls if c[0] == '_encrypt']
-        if len(enc) != 1:
-            rep.violation('C13.2', 'IntegrityProtectedSKEDataV1.encrypt', '%d _encrypt calls' % len(enc), 'expected one encryption',
-                          where=fi.where)
+    W = 'IntegrityProtectedSKEDataV1.encrypt'
+    PREFIX = ['alg.gen_iv()', sl('alg.gen_iv()', (-2, '')), 'data']
+    for s in run_roles(prog, fi, ('self', 'key', 'alg', 'data')):
+        if s.raised:
             continue
-        pt = enc[0][1][0]
-        rep.check(pt.startswith('alg.gen_iv() SLICE(alg.gen_iv();-2;) data '), 'C13.2', 'IntegrityProtectedSKEDataV1.encrypt',
-                  'plaintext %s' % pt[:80], 'the plaintext must start with a fresh random block of the cipher in use, its last two octets repeated',
-                  where=fi.where, expected='alg.gen_iv() SLICE(alg.gen_iv();-2;) data ...', found=pt[:120])
-        rep.check(enc[0][1][2] == 'alg' and len(enc[0][1]) == 3 and not enc[0][2], 'C13.2', 'IntegrityProtectedSKEDataV1.encrypt',
-                  '_encrypt args %s' % enc[0][1][1:], 'encryption must use the same cipher the prefix was sized for (zero IV)', where=fi.where)
+        enc = taint.calls_named(s, '_encrypt')
+        if len(enc) != 1:
+            rep.violation('C13.2', W, '%d _encrypt calls' % len(enc), 'expected one encryption', where=fi.where)
+            continue
+        a = list(enc[0][1])
+        its = split_items(a[0]) if a else []
+        its = [taint.qualify_imports(x, fi.module) for x in its]
+        rep.check(taint.random_prefix(its, 'alg', 'data') is not None and len(its) > 3 and taint.n_draws(s) == 1, 'C13.2', W,
+                  'plaintext %s' % ' '.join(its)[:80],
+                  'the plaintext must start with a fresh random block of the cipher in use, its last two octets repeated',
+                  where=fi.where, expected=' '.join(PREFIX) + ' ...', found=' '.join(its)[:120])
+        rep.check(len(a) == 3 and a[2] == 'alg' and not enc[0][2], 'C13.2', W, '_encrypt args %s' % a[1:],
+                  'encryption must use the same cipher the prefix was sized for (zero IV)', where=fi.where)
 
 
 def check_keyblob(rep, prog):
     fi = prog.method('pgpy.packet.fields', 'PrivKey', 'encrypt_keyblob')
     rep.saw(fn=fi)
-    outs = Interp(prog, Scenario(inline=noinline)).run(fi)
-    for s in outs:
+    for s in run_roles(prog, fi, ('self', 'passphrase', 'enc_alg', 'hash_alg')):
+        if s.raised:
+            continue
         iv = [v for p, v, l, _ in s.stores if p == 'self.s2k.iv']
         salt = [v for p, v, l, _ in s.stores if p == 'self.s2k.salt']
         alg = [v for p, v, l, _ in s.stores if p == 'self.s2k.encalg']
-        rep.check(iv == ['enc_alg.gen_iv()'] and alg == ['enc_alg'], 'C13.2', 'PrivKey.encrypt_keyblob', 'iv = %s (cipher %s)' % (iv, alg),
+        iv = [taint.qualify_imports(x, fi.module) for x in iv]
+        rep.check(len(iv) == 1 and taint.fresh_draw(iv[0]) == ('iv', 'enc_alg') and alg == ['enc_alg'] and taint.n_draws(s) == 2, 'C13.2',
+                  'PrivKey.encrypt_keyblob',
+                  'iv = %s (cipher %s)' % (iv, alg),
                   'key protection must draw a fresh IV of the protection cipher', where=fi.where, expected='self.s2k.iv = enc_alg.gen_iv()',
                   found=iv)
-        rep.check(salt == ['os.urandom(8)'], 'C13.2', 'PrivKey.encrypt_keyblob', 'salt = %s' % salt,
+        rep.check(len(salt) == 1 and taint.is_urandom_of(salt[0], 8, fi.module), 'C13.2', 'PrivKey.encrypt_keyblob', 'salt = %s' % salt,
                   'key protection must draw a fresh 8-octet salt', where=fi.where, expected='self.s2k.salt = os.urandom(8)', found=salt)
-        enc = [c for c in s.calls if c[0] == '_encrypt']
-        ok = len(enc) == 1 and len(enc[0][1]) == 4 and enc[0][1][3] == 'enc_alg.gen_iv()' and enc[0][1][2] == 'enc_alg'
+        spec = [v for p, v, l, _ in s.stores if p == 'self.s2k.specifier']
+        rep.check(len(spec) == 1 and spec[0] in ('3', '1', 'String2KeyType.Iterated', 'String2KeyType.Salted'), 'C13.2', 'PrivKey.encrypt_keyblob',
+                  'S2K specifier %s' % spec, 'key protection must use a salted S2K so that the fresh salt takes effect', where=fi.where,
+                  expected='String2KeyType.Iterated', found=spec)
+        enc = taint.calls_named(s, '_encrypt')
+        ok = len(enc) == 1 and len(enc[0][1]) == 4 and not enc[0][2] and [taint.qualify_imports(enc[0][1][3], fi.module)] == iv and \
+            enc[0][1][2] == 'enc_alg'
         rep.check(ok, 'C13.2', 'PrivKey.encrypt_keyblob', '_encrypt(%s)' % (enc[0][1][1:] if enc else None),
                   'the secret material must be encrypted under the IV that is stored with the key', where=fi.where,
                   expected='_encrypt(pt, key, enc_alg, <the stored iv>)', found=enc[0][1] if enc else None)
-        order = [e[1] if e[0] == 'store' else 'derive' for e in s.events
-                 if (e[0] == 'store' and e[1] in ('self.s2k.salt',)) or (e[0] == 'call' and e[1].endswith('derive_key'))]
-        rep.check(order == ['self.s2k.salt', 'derive'], 'C13.2', 'PrivKey.encrypt_keyblob', 'order %s' % order,
+        order = _salt_then_derive(s)
+        rep.check(order == ['store', 'derive'], 'C13.2', 'PrivKey.encrypt_keyblob', 'order %s' % order,
                   'the fresh salt must be in place before the key is derived', where=fi.where)
 
 
 def check_ecdh(rep, prog):
     fi = prog.method('pgpy.packet.fields', 'ECDHCipherText', 'encrypt')
     rep.saw(fn=fi)
-    outs = Interp(prog, Scenario(inline=noinline)).run(fi)
+    outs = [s for s in run_roles(prog, fi, ('cls', 'pk'), vararg=['m']) if not s.raised]
     rep.analysed['paths'] += len(outs)
     if len(outs) < 2:
         raise AnalysisError('ECDHCipherText.encrypt: expected the two curve arms, found %d path(s)' % len(outs))
@@ -230,21 +266,34 @@ def check_ecdh(rep, prog):
             continue
         v = ex[0][0][:-len('.exchange')]
         m = taint.entropy_call(v)
-        rep.check(m is not None, 'C13.2', 'ECDHCipherText.encrypt', 'ephemeral key = %s' % v,
+        ndraw = len(taint.draws(s, 'generate')) + len(taint.draws(s, 'generate_private_key'))
+        rep.check(m is not None and ndraw == 1, 'C13.2', 'ECDHCipherText.encrypt', 'ephemeral key = %s' % v,
                   'each ECDH encryption must generate a new ephemeral key inside the call', where=fi.where,
                   expected='X25519PrivateKey.generate() / ec.generate_private_key(curve of the recipient)', found=v, scenario=scen)
         if m is not None and 'curve' in m.groupdict() and m.group('curve'):
             rep.check(m.group('curve') == 'pk.keymaterial.oid.curve()', 'C13.2', 'ECDHCipherText.encrypt', 'curve %s' % m.group('curve'),
                       'the ephemeral key must be on the recipient\'s curve', where=fi.where, scenario=scen)
-        # the public point written is derived from the same ephemeral key
-        pts = [val for p, val, l, _ in s.stores if p.endswith('.p')]
-        def deftext(n):
-            val = s.env.get(n, Sym(n))
-            return getattr(val, 'text', None) or render(val)
-        ok = len(pts) == 1 and (v + '.public_key()' in pts[0] or all(v + '.public_key()' in deftext(n)
-                                                                      for n in ('x', 'y') if re.search(r'\b%s\b' % n, pts[0])))
+        # the public point written is derived from the same ephemeral key: every coordinate handed to the point constructor is read
+        # from <that key>.public_key()
+        pts = [taint.expand_objs(s, val) for p, val, l, _ in s.stores if p.endswith('.p')]
+        ok = len(pts) == 1
+        if ok:
+            r = split_args(pts[0])
+            coords = [a for a in (r[1] if r else []) if 'public_key()' in a or 'generate' in a]
+            ok = r is not None and bool(coords) and all((v + '.public_key()') in a for a in coords) and \
+                not any(x in pts[0].replace(v, '<EPH>') for x in ('generate(', 'generate_private_key('))
         rep.check(ok, 'C13.2', 'ECDHCipherText.encrypt', 'public point %s' % (pts[0][:80] if pts else None),
                   'the ephemeral public point in the packet must belong to the ephemeral key that was used', where=fi.where, scenario=scen)
+        # the ephemeral private key is used for its public point and the exchange only: it is not kept anywhere
+        kept = []
+        for p, val, l, _ in s.stores:
+            rest = re.sub(re.escape(v) + r'\.(public_key|exchange)\(', '<USE>(', taint.expand_objs(s, val))
+            if v in rest:
+                kept.append('%s = %s' % (p, val[:80]))
+        r = re.sub(re.escape(v) + r'\.(public_key|exchange)\(', '<USE>(', render(s.ret) if s.ret is not None else '')
+        kept += [t for k, t, l in taint.captured_leaks(fi, s, v) if k == 'closure']
+        rep.check(not kept and v not in r, 'C13.2', 'ECDHCipherText.encrypt', 'ephemeral key kept: %s' % kept,
+                  'the ephemeral private key must not outlive the call (it is single-use)', where=fi.where, scenario=scen, found=kept)
         # the peer is the recipient's public key
         peer = ex[0][1][-1] if ex[0][1] else None
         rep.check(peer == 'pk.keymaterial.__pubkey__()', 'C13.2', 'ECDHCipherText.encrypt', 'peer %s' % peer,
@@ -253,40 +302,37 @@ def check_ecdh(rep, prog):
 
 # ------------------------------------------------------------------------------------------------ C13.3
 def check_confinement(rep, prog):
-    targets = [
-        ('pgpy.pgp', 'PGPMessage', 'encrypt', 'sessionkey', {'sessionkey': Sym('sessionkey', nonnull=True)}),
-        ('pgpy.pgp', 'PGPKey', 'encrypt', 'sessionkey', {'sessionkey': Sym('sessionkey', nonnull=True)}),
-        ('pgpy.packet.packets', 'PKESessionKeyV3', 'encrypt_sk', 'symkey', {}),
-        ('pgpy.packet.packets', 'SKESessionKeyV4', 'encrypt_sk', 'sk', {}),
-        ('pgpy.packet.packets', 'IntegrityProtectedSKEDataV1', 'encrypt', 'key', {}),
-        ('pgpy.packet.fields', 'ECDHCipherText', 'encrypt', 'args', {}),
-        ('pgpy.packet.fields', 'RSACipherText', 'encrypt', 'args', {}),
+    K = 'sessionkey'        # the role symbol of the secret in every operation (whatever the parameter is called there)
+    targets = [   # module, class, method, roles, *args roles, role of the session key
+        ('pgpy.pgp', 'PGPMessage', 'encrypt', ('self', 'passphrase', K), None, K),
+        ('pgpy.pgp', 'PGPKey', 'encrypt', ('self', 'message', K), None, K),
+        ('pgpy.packet.packets', 'PKESessionKeyV3', 'encrypt_sk', ('self', 'pk', 'symalg', K), None, K),
+        ('pgpy.packet.packets', 'SKESessionKeyV4', 'encrypt_sk', ('self', 'passphrase', K), None, K),
+        ('pgpy.packet.packets', 'IntegrityProtectedSKEDataV1', 'encrypt', ('self', K, 'alg', 'data'), None, K),
+        ('pgpy.packet.fields', 'ECDHCipherText', 'encrypt', ('cls', 'pk'), [K], K),
+        ('pgpy.packet.fields', 'RSACipherText', 'encrypt', ('cls', 'encfn'), [K], K),
+        ('pgpy.symenc', None, '_encrypt', ('pt', K, 'alg', 'iv'), None, K),
     ]
-    for mod, cls, meth, name, args in targets:
-        fi = prog.method(mod, cls, meth)
+    for mod, cls, meth, roles, va, name in targets:
+        fi = prog.method(mod, cls, meth) if cls is not None else prog.function(mod, meth)
         rep.saw(fn=fi)
-        construct = '%s.%s' % (cls, meth)
+        construct = '%s.%s' % (cls, meth) if cls is not None else meth
+        gl = set(x for n in ast.walk(fi.node) if isinstance(n, (ast.Global, ast.Nonlocal)) for x in n.names)
         bind = {'self.is_encrypted': Const(False), 'message.is_encrypted': Const(False)}
-        outs = Interp(prog, Scenario(args=args, bind=bind, inline=noinline)).run(fi)
+        args = {'sessionkey': Sym('sessionkey', nonnull=True)}
+        outs = run_roles(prog, fi, roles, vararg=va, kwarg='prefs', args=args, bind=bind)
         bad = []
         for s in outs:
-            for kind, text, line in taint.leaks(s, name, ENC_CALLS + ('encfn', 'padder', 'PKCS7', 'MPI', 'bytes_to_int')):
+            for kind, text, line in taint.leaks(s, name, CARRIERS, sanitizers=SANITIZERS, global_names=gl) + taint.captured_leaks(fi, s, name):
                 if (kind, text) not in [(b[0], b[1]) for b in bad]:
                     bad.append((kind, text, line))
         if cls in ('PGPMessage', 'PGPKey'):
             # also the generated key
-            outs2 = Interp(prog, Scenario(args={'sessionkey': Const(None)}, bind=bind, inline=noinline)).run(fi)
+            outs2 = run_roles(prog, fi, roles, kwarg='prefs', args={'sessionkey': Const(None)}, bind=bind)
             for s in outs2:
-                for kind, text, line in taint.leaks(s, 'gen_key()', ENC_CALLS):
-                    pass
-                for p, v, l, _ in s.stores:
-                    if 'gen_key()' in taint.strip_calls(v, ENC_CALLS):
-                        bad.append(('store', '%s = %s' % (p, v), l))
-                for e in s.events:
-                    if e[0] == 'return' and 'gen_key()' in taint.strip_calls(e[1], ENC_CALLS):
-                        bad.append(('return', e[1], e[2]))
-                    if e[0] == 'ior' and ('gen_key()' in e[2]):
-                        bad.append(('ior', '%s |= %s' % (e[1], e[2]), e[3]))
+                for kind, text, line in taint.leaks(s, 'gen_key()', CARRIERS, sanitizers=SANITIZERS, substring=True):
+                    if (kind, text) not in [(b[0], b[1]) for b in bad]:
+                        bad.append((kind, text, line))
         if bad:
             for kind, text, line in bad:
                 rep.violation('C13.3', construct, '%s: %s' % (kind, text[:160]),
@@ -303,7 +349,7 @@ def positive_example(rep):
         stores = [('msg._sk', 'sessionkey', 1, None)]
         events = [('return', '(msg | sessionkey)', 2)]
         calls = [('logging.debug', ['sessionkey'], {}, 3, None)]
-    got = taint.leaks(S, 'sessionkey', ENC_CALLS)
+    got = taint.leaks(S, 'sessionkey', CARRIERS, sanitizers=SANITIZERS)
     rep.check(len(got) == 3, 'C13.3', 'embedded positive example', 'leak detector on a leaking snippet: %d hits' % len(got),
               'the confinement rule must fire on its embedded positive example', found=got)
     rep.check(taint.entropy_call('os.urandom(8)') is not None and taint.entropy_call('SALT') is None and
